@@ -90,10 +90,17 @@ async fn handle_connection(
             // handler set its own; no response query buffer either way.
             let echo = crate::message::response_echo_query(&resp, view.query);
             if let Some(dur) = write_timeout {
-                timeout(dur, write_view_response(&mut writer, &resp, echo))
-                    .await
-                    .ok();
-                timeout(dur, writer.flush()).await.ok();
+                // A timed-out (or failed) write may have left part of this frame
+                // on the wire. Nothing may follow a torn frame, so the connection
+                // ends here; dropping the writer discards what is still buffered.
+                match timeout(dur, write_view_response(&mut writer, &resp, echo)).await {
+                    Ok(written) => written?,
+                    Err(_) => return Ok(()),
+                }
+                match timeout(dur, writer.flush()).await {
+                    Ok(flushed) => flushed?,
+                    Err(_) => return Ok(()),
+                }
             } else {
                 write_view_response(&mut writer, &resp, echo).await?;
                 writer.flush().await?;
